@@ -148,4 +148,95 @@ theorem Re.bag_strict (r : Re) (line : Bytes) :
 theorem Re.bag_ok (r : Re) : (Re.bag r).OK :=
   fun line => ⟨(Re.findIter_ok r line).sorted, (Re.findIter_ok (.plus r) line).sorted⟩
 
+/-! ## 2. the ranges between the matches against the tokens -/
+
+theorem tokFrom_numFields (line : Bytes) (cnt : Nat → Nat → Nat) :
+    ∀ (ms : List (Nat × Nat)) (prev : Nat), (tokFrom line cnt prev ms).numFields = ms.length + 1
+  | [], _ => rfl
+  | (s, e) :: t, prev => by
+    have := tokFrom_numFields line cnt t e
+    simp only [TokRe.numFields] at this
+    simp [tokFrom, TokRe.numFields, this]
+
+theorem pieceTextRe_one_one (sep : Bytes → Nat → Bytes) (tok : TokRe) :
+    pieceTextRe sep tok 1 1 = tok.first := by
+  simp [pieceTextRe]
+
+theorem pieceTextRe_one_succ (sep : Bytes → Nat → Bytes) (f x g : Bytes) (k : Nat)
+    (rest : List (Bytes × Nat × Bytes)) (b : Nat) :
+    pieceTextRe sep ⟨f, (x, k, g) :: rest⟩ 1 (b + 2) =
+      f ++ sep x k ++ pieceTextRe sep ⟨g, rest⟩ 1 (b + 1) := by
+  simp [pieceTextRe, List.append_assoc]
+
+theorem pieceTextRe_succ_succ (sep : Bytes → Nat → Bytes) (f x g : Bytes) (k : Nat)
+    (rest : List (Bytes × Nat × Bytes)) (a b : Nat) :
+    pieceTextRe sep ⟨f, (x, k, g) :: rest⟩ (a + 2) (b + 2) =
+      pieceTextRe sep ⟨g, rest⟩ (a + 1) (b + 1) := by
+  have e : b + 2 - (a + 2) = b + 1 - (a + 1) := by omega
+  cases a with
+  | zero => simp [pieceTextRe]
+  | succ a' => simp [pieceTextRe, e]
+
+theorem rangesBetweenMatches_head (L : Nat) (ms : List (Nat × Nat)) (prev : Nat)
+    (h : 0 < (rangesBetweenMatches L prev ms).length) :
+    ((rangesBetweenMatches L prev ms)[0]).start = prev := by
+  cases ms with
+  | nil => rfl
+  | cons m t => obtain ⟨s, e⟩ := m; rfl
+
+/-- **the printed text of a bound**: the bytes of the record from the start of its first gap to
+    the end of its last gap are the gaps with the separators between them, verbatim -/
+theorem slice_eq_pieceTextRe (line : Bytes) (cnt : Nat → Nat → Nat) :
+    ∀ (ms : List (Nat × Nat)) (prev : Nat), SortedMatches line.length prev ms → prev ≤ line.length →
+      ∀ (a b : Nat) (_ : a ≤ b) (hb : b < (rangesBetweenMatches line.length prev ms).length),
+        slice line ((rangesBetweenMatches line.length prev ms)[a]'(by omega)).start
+            ((rangesBetweenMatches line.length prev ms)[b]).stop =
+          pieceTextRe (fun x _ => x) (tokFrom line cnt prev ms) (a + 1) (b + 1) := by
+  intro ms
+  induction ms with
+  | nil =>
+    intro prev _ _ a b hab hb
+    simp only [rangesBetweenMatches, List.length_singleton] at hb
+    have hb0 : b = 0 := by omega
+    have ha0 : a = 0 := by omega
+    subst hb0; subst ha0
+    rw [pieceTextRe_one_one]
+    simp only [rangesBetweenMatches, List.getElem_cons_zero, tokFrom]
+    exact slice_to_end line prev
+  | cons m t ih =>
+    obtain ⟨s, e⟩ := m
+    intro prev hm hp a b hab hb
+    obtain ⟨h1, h2, h3, h4⟩ := hm
+    have hin := rangesBetweenMatches_in line.length t e h4 h3
+    cases b with
+    | zero =>
+      have ha0 : a = 0 := by omega
+      subst ha0
+      rw [pieceTextRe_one_one]
+      rfl
+    | succ b' =>
+      have hb' : b' < (rangesBetweenMatches line.length e t).length := by
+        simpa [rangesBetweenMatches] using hb
+      cases a with
+      | zero =>
+        have hge := hin.getElem 0 b' (Nat.zero_le _) hb'
+        have hhead := rangesBetweenMatches_head line.length t e (by omega)
+        have ihh := ih e h4 h3 0 b' (Nat.zero_le _) hb'
+        rw [hhead] at ihh hge
+        show slice line prev ((rangesBetweenMatches line.length e t)[b']).stop = _
+        rw [← slice_append_slice line (s := prev) (m := s) h1 (by omega),
+          ← slice_append_slice line (s := s) (m := e) h2 (by omega), ihh]
+        show _ = pieceTextRe _ ⟨slice line prev s,
+          (slice line s e, cnt s e, (tokFrom line cnt e t).first) :: (tokFrom line cnt e t).rest⟩ 1 (b' + 2)
+        rw [pieceTextRe_one_succ]
+        simp [List.append_assoc]
+      | succ a' =>
+        have ihh := ih e h4 h3 a' b' (by omega) hb'
+        show slice line ((rangesBetweenMatches line.length e t)[a']).start
+          ((rangesBetweenMatches line.length e t)[b']).stop = _
+        rw [ihh]
+        show _ = pieceTextRe _ ⟨slice line prev s,
+          (slice line s e, cnt s e, (tokFrom line cnt e t).first) :: (tokFrom line cnt e t).rest⟩ (a' + 2) (b' + 2)
+        rw [pieceTextRe_succ_succ]
+
 end Tuc
